@@ -44,8 +44,10 @@ type e2eReq struct {
 	Backend  string   `json:"backend,omitempty"`  // behaviour of the backend that got it
 	Parallel bool     `json:"parallel,omitempty"` // part of a burst issued all at once
 	At       string   `json:"t"`
+	Dress    string   `json:"dress,omitempty"` // method/headers the request wears (lab.Dresses); the limiter takes no notice of them
 	at       time.Duration
 	rid      string
+	k        int
 }
 
 type e2eEvent struct {
@@ -96,6 +98,7 @@ func TestC09EndToEnd(t *testing.T) {
 		rs := rapid.IntRange(1, 3).Draw(rt, "refill_s")
 		p.R = time.Duration(rs) * time.Second
 		strategy := rapid.SampledFrom(lab.Strategies).Draw(rt, "strategy")
+		dress := lab.DrawDressPlan(rt)
 		nb := rapid.IntRange(1, 3).Draw(rt, "backends")
 		ni := rapid.IntRange(1, 4).Draw(rt, "identities")
 		ids := make([]identity, 0, ni)
@@ -256,10 +259,14 @@ func TestC09EndToEnd(t *testing.T) {
 					}
 					rid++
 					r.rid = fmt.Sprintf("r%d", rid)
+					r.k = rid
+					if d := dress.At(rid); d.Name != "plain-get" {
+						r.Dress = d.Name
+					}
 					batch = append(batch, r)
 				}
 				run := func(r *e2eReq) {
-					req := lab.Request("GET", "/x", r.Remote, nil)
+					req := dress.At(r.k).Request("/x", r.Remote)
 					for _, l := range r.XFF {
 						req.Header.Add("X-Forwarded-For", l)
 					}
@@ -391,7 +398,7 @@ func TestC09EndToEnd(t *testing.T) {
 		if idle {
 			labels = append(labels, "idle-clause-exercised")
 		}
-		sub.Case(map[string]any{"p": p, "strategy": strategy, "backends": setup, "handler_timeout_s": handlerS, "passive": passive, "identities": ids, "events": evs}, nt, labels...)
+		sub.Case(map[string]any{"p": p, "strategy": strategy, "backends": setup, "handler_timeout_s": handlerS, "passive": passive, "identities": ids, "events": evs, "dress": dress}, nt, append(labels, dress.Label())...)
 		if viol != "" {
 			rt.Fatalf("max_tokens=%d refill=%v handler_timeout=%ds passive=%v strategy=%s backends=%v identities=%+v\nevents=%s\n%s", p.Max, p.R, handlerS, passive, strategy, setup, ids, showEvents(evs), viol)
 		}
